@@ -335,6 +335,12 @@ def _eval_const(expr: str, env: dict):
         }
         if not isinstance(a, (int, float)) or not isinstance(b, (int, float)):
             raise ValueError("unsupported operand type")
+        if isinstance(a, int) and isinstance(b, int):
+            # never fold astronomically large integers at transpile time
+            if opcls is ast.Pow and b > 0 and abs(a) > 1 and b * abs(a).bit_length() > 4096:
+                raise ValueError("constant too large to fold")
+            if opcls is ast.LShift and b > 4096:
+                raise ValueError("constant too large to fold")
         return ops[opcls](a, b)
 
     tree = ast.parse(expr, mode="eval")
